@@ -1,15 +1,46 @@
 /-
   Driver op for the life-cycle machine:
-    life run <flags> <en bits> <div ints> <started 0|1> <call;call;…>
-  calls: C X S T s<c> u<q> e<cs>[!] d<cs>[!] N[!] v<val>:<cs>[!] D[!] W g<c>     (! = writenow)
+    life nx   <flags> <en bits> <div ints> <started 0|1> <desc> <call;call;…>     NxscopeHandler
+    life comm <flags> <en bits> <div ints> <started 0|1> <desc> <call;call;…>     bare CommHandler
+  desc : <rxpadding>/<type>.<vdim>.<mlen>.<name hex|->,…      (a lone `-` after the slash for a device without channels)
+  calls (nx)  : C X S T s<c> u<q> e<cs>[!] d<cs>[!] N[!] v<val>:<cs>[!] D[!] W g<c>     (! = writenow)
+  calls (comm): C X S T e<cs> d<cs> v<val>:<cs> A N D W
+  an optional last token `cut:<i>,<j>…` (environment events the model does not see, see `lifeOp`)
+  every call may carry the device's answers to the start/stop, divider and enable request it issues:
+    <call>~<st>,<dv>,<en>      outcomes: a | x | l | n<r> (r ≠ 0; `n0` allowed for <st>)
   output per call, joined by " | ":
-    r=<ok|err>;w=<frames written by this call, hex joined by ,|->;st=<connected><commStarted><hasDev><streamStarted><recvThr><streamThr><intf>;dev=<bits>/<ints>/<started>;subs=<…>
+    r=<ok|err|ack:<0|1>:<code>>;t=<tenths>;w=<frames written by this call, hex joined by ,|->;
+    st=<connected><commStarted><hasDev><streamStarted><recvThr><streamThr><intf>;dev=<bits>/<ints>/<started>;
+    subs=<…>;cli=<now en>/<now div>/<new en>/<new div>/<cp en>/<cp div>/<rs><rs> | -;desc=<description (after a connect) | + | ->
 -/
 import NxsModel.Driver.Config
 import NxsModel.Driver.Fanout
 import NxsModel.Lifecycle
 namespace Nxs.Driver
-open Nxs Nxs.Lifecycle
+open Nxs Nxs.Lifecycle Nxs.Config
+
+/-- an outcome token; a NACK with code 0 is not a NACK -/
+def lifeOutcome (s : String) : Option Outcome :=
+  match outcomeArg s with
+  | some (.nack r) => if r = 0 then none else some (.nack r)
+  | o => o
+
+/-- answers to the start/stop, divider, enable request; `n0` is accepted for the start/stop request only (there the
+    model follows the code: an ACK frame with code 0 is a positive acknowledgement) -/
+def ansArg (s : String) : Option Ans :=
+  match s.splitOn "," with
+  | [a, b, c] => do pure ⟨← outcomeArg a, ← lifeOutcome b, ← lifeOutcome c⟩
+  | _ => none
+
+def intsArg' (s : String) : Option (List Int) :=
+  if s = "" ∨ s = "-" then some [] else (s.splitOn ",").mapM (·.toInt?)
+
+/-- split `<call>~<answers>` -/
+def splitAns (s : String) : Option (String × Ans) :=
+  match s.splitOn "~" with
+  | [c] => some (c, {})
+  | [c, a] => (ansArg a).map fun x => (c, x)
+  | _ => none
 
 def callArg (s0 : String) : Option Call :=
   let wn := s0.endsWith "!"
@@ -18,34 +49,100 @@ def callArg (s0 : String) : Option Call :=
   else if s = "S" then some .streamStart else if s = "T" then some .streamStop
   else if s = "W" then some .channelsWrite
   else if s = "N" then some (.chDisableAll wn) else if s = "D" then some (.defaultCfg wn)
-  else if s.startsWith "s" then (s.drop 1).toString.toNat?.map .sub
+  else if s.startsWith "s" then (s.drop 1).toString.toInt?.map .sub
   else if s.startsWith "u" then (s.drop 1).toString.toNat?.map .unsub
-  else if s.startsWith "g" then (s.drop 1).toString.toNat?.map .devChannelGet
-  else if s.startsWith "e" then (natsArg (s.drop 1).toString).map (.chEnable · wn)
-  else if s.startsWith "d" then (natsArg (s.drop 1).toString).map (.chDisable · wn)
+  else if s.startsWith "g" then (s.drop 1).toString.toInt?.map .devChannelGet
+  else if s.startsWith "e" then (intsArg' (s.drop 1).toString).map (.chEnable · wn)
+  else if s.startsWith "d" then (intsArg' (s.drop 1).toString).map (.chDisable · wn)
   else if s.startsWith "v" then
     match (s.drop 1).toString.splitOn ":" with
-    | [v, cs] => do pure (.chDivider (← natsArg cs) (← v.toInt?) wn)
+    | [v, cs] => do pure (.chDivider (← intsArg' cs) (← v.toInt?) wn)
     | _ => none
   else none
 
-def lifeState (w0 w : World) (r : Res) : String :=
-  let res := match r with | .ok => "ok" | .raised e => e.name
+def commCallArg (s : String) : Option CommCall :=
+  if s = "C" then some .connect else if s = "X" then some .disconnect
+  else if s = "S" then some .streamStart else if s = "T" then some .streamStop
+  else if s = "W" then some .channelsWrite
+  else if s = "A" then some .chEnableAll
+  else if s = "N" then some .chDisableAll else if s = "D" then some .defaultCfg
+  else if s.startsWith "e" then (intsArg' (s.drop 1).toString).map .chEnable
+  else if s.startsWith "d" then (intsArg' (s.drop 1).toString).map .chDisable
+  else if s.startsWith "v" then
+    match (s.drop 1).toString.splitOn ":" with
+    | [v, cs] => do pure (.chDivider (← intsArg' cs) (← v.toInt?))
+    | _ => none
+  else none
+
+def chanDescArg (s : String) : Option ChanDesc :=
+  match s.splitOn "." with
+  | [t, v, m, nm] => do pure ⟨← t.toNat?, ← v.toNat?, ← m.toNat?, ← hexArg nm⟩
+  | _ => none
+
+def descArg (s : String) : Option Desc :=
+  match s.splitOn "/" with
+  | [rxp, chs] => do
+    let r ← rxp.toNat?
+    let cs ← if chs = "-" then some [] else (chs.splitOn ",").mapM chanDescArg
+    pure ⟨cs, r⟩
+  | _ => none
+
+def chanDescStr (c : ChanDesc) : String := s!"{c.type}.{c.vdim}.{c.mlen}.{Bytes.hex c.name}"
+
+def reportedStr (r : Reported) : String :=
+  s!"{r.chmax}.{r.flags}.{r.rxpadding}/" ++ (if r.chans.isEmpty then "-" else ",".intercalate (r.chans.map chanDescStr))
+
+def cliStr (w : World) : String :=
+  match w.cli with
+  | none => "-"
+  | some c =>
+    s!"{bitsStr c.enNow}/{intsStr c.divNow}/{bitsStr c.enNew}/{intsStr c.divNew}/" ++
+    (if w.hasDev then s!"{bitsStr c.copyEn}/{intsStr c.copyDiv}" else "-/-") ++
+    s!"/{boolStr c.enResync}{boolStr c.divResync}"
+
+def resStr : Res → String
+  | .ok => "ok"
+  | .raised e => e.name
+  | .ack s c => s!"ack:{boolStr s}:{c}"
+
+def lifeState (isConnect : Bool) (w0 w : World) (r : Res) : String :=
   let written := w.log.drop w0.log.length
   let ws := if written.isEmpty then "-" else ",".intercalate (written.map Bytes.hex)
-  s!"r={res};w={ws};st={boolStr w.connected}{boolStr w.commStarted}{boolStr w.hasDev}{boolStr w.streamStarted}{boolStr w.recvThr}{boolStr w.streamThr}{boolStr w.intf};dev={bitsStr w.dev.en}/{intsStr w.dev.div}/{boolStr w.devStarted};subs={",".intercalate (w.subs.map dotJoin)}"
+  let ds := match w.reported with
+    | none => "-"
+    | some d => if isConnect then reportedStr d else "+"
+  s!"r={resStr r};t={w.time - w0.time};w={ws};st={boolStr w.connected}{boolStr w.commStarted}{boolStr w.hasDev}{boolStr w.streamStarted}{boolStr w.recvThr}{boolStr w.streamThr}{boolStr w.intf};dev={bitsStr w.dev.en}/{intsStr w.dev.div}/{boolStr w.devStarted};subs={",".intercalate (w.subs.map dotJoin)};cli={cliStr w};desc={ds}"
 
-def lifeRun (w : World) : List Call → List String
+def lifeRun (w : World) : List (Call × Ans) → List String
   | [] => []
   | c :: r =>
-    let (w1, res) := step w c
-    lifeState w w1 res :: lifeRun w1 r
+    let (w1, res) := step w c.1 c.2
+    lifeState (c.1 = .connect) w w1 res :: lifeRun w1 r
 
-def lifeOp : List String → Option String
-  | ["run", flags, en, div, started, calls] => do
+def lifeCommRun (w : World) : List (CommCall × Ans) → List String
+  | [] => []
+  | c :: r =>
+    let (w1, res) := commStep w c.1 c.2
+    lifeState (c.1 = .connect) w w1 res :: lifeCommRun w1 r
+
+def lifeOp1 (mode flags en div started desc calls : String) : Option String := do
     let fl ← natArg flags; let en ← bitsArg en; let div ← intsArg div; let st ← natArg started
-    let cs ← (calls.splitOn ";").mapM callArg
-    pure ("ok " ++ " | ".intercalate (lifeRun (World.fresh ⟨en, div⟩ (st ≠ 0) fl) cs))
+    let ds ← descArg desc
+    let w := World.fresh ⟨en, div⟩ (st ≠ 0) fl ds
+    let toks ← (calls.splitOn ";").mapM splitAns
+    if mode = "nx" then do
+      let cs ← toks.mapM fun (c, a) => (callArg c).map fun x => (x, a)
+      pure ("ok " ++ " | ".intercalate (lifeRun w cs))
+    else if mode = "comm" then do
+      let cs ← toks.mapM fun (c, a) => (commCallArg c).map fun x => (x, a)
+      pure ("ok " ++ " | ".intercalate (lifeCommRun w cs))
+    else none
+
+/-- an optional 8th token describes events of the environment the model does not see (`cut:<i>,…`: before
+    call i the first bytes of a frame that is never completed arrive from the device) -/
+def lifeOp : List String → Option String
+  | [mode, flags, en, div, started, desc, calls] => lifeOp1 mode flags en div started desc calls
+  | [mode, flags, en, div, started, desc, calls, _env] => lifeOp1 mode flags en div started desc calls
   | _ => none
 
 end Nxs.Driver
